@@ -38,7 +38,7 @@ Proof. vm_compute; reflexivity. Qed.
 
 Definition model_strcase_calls : list (string * string) :=
   [("componentName", "ToCamel"); ("componentName", "ToCamel"); ("fullName", "ToCamel"); ("run", "ToSnake");
-   ("acceptStatus", "ToScreamingSnake"); ("findStatus", "ToScreamingSnake"); ("findStatus", "ToScreamingSnake");
+   ("acceptStatus", "ToScreamingSnake"); ("findStatus", "ToScreamingSnake");
    ("acceptEventOneof", "ToLowerCamel"); ("acceptCommands", "ToCamel");
    ("acceptSummaryTopics", "ToCamel"); ("acceptSummaryTopics", "ToCamel"); ("acceptSummaryTopics", "ToCamel");
    ("acceptPublishTopic", "ToCamel"); ("acceptPublishTopic", "ToCamel");
@@ -48,7 +48,7 @@ Lemma strcase_calls_agree : model_strcase_calls = EntityGen.strcase_calls.
 Proof. vm_compute; reflexivity. Qed.
 
 Definition model_formats : list (string * string) :=
-  [("fullName", "%s.%s"); ("findStatus", "%s_STATUS_%s"); ("acceptEventOneof", "%s.%s");
+  [("fullName", "%s.%s"); ("acceptEventOneof", "%s.%s");
    ("acceptCommands", "%sCommand"); ("acceptCommands", "/%s/%s"); ("acceptCommands", "/%s/c");
    ("acceptSummaryTopics", "%sSummary"); ("acceptSummaryTopics", "%s%s");
    ("acceptSummaryTopics", "Publishes summary output of state for the %s entity");
@@ -60,7 +60,8 @@ Definition model_formats : list (string * string) :=
 Lemma formats_agree : model_formats = EntityGen.sprintf_formats.
 Proof. vm_compute; reflexivity. Qed.
 
-Lemma status_literals_agree : EntityGen.status_literals = ["%s_STATUS_%s"; "_STATUS_"].
+(* acceptStatus (the enum prefix) and findStatus (default filters) use the same literal *)
+Lemma status_literals_agree : EntityGen.status_literals = ["_STATUS_"].
 Proof. vm_compute; reflexivity. Qed.
 
 Definition model_property_names : list (string * string) :=
@@ -110,8 +111,8 @@ Proof. vm_compute; reflexivity. Qed.
 (* and the external references the model emits are exactly those of acceptState /
    acceptEvent / acceptPublishTopic / acceptQuery and the upsert arm of topic.go *)
 Definition sample : entity :=
-  mkE (bs "foo.v1") (bs "Foo") [] [mkK (mkU (bs "fooId") (KKey true None) false) false] []
-      [bs "ACTIVE"] [mkEv (bs "Create") []] [] [mkS [] []] (Some (mkQ true [])).
+  mkE (bs "foo.v1") (bs "Foo") [] [mkK (mkU (bs "fooId") (KKey true None None) false false) false] []
+      [bs "ACTIVE"] [mkEv (bs "Create") []] [] [mkS [] []] (Some (mkQ true [])) [].
 Definition externals (cs : list component) : list (bytes * bytes) :=
   flat_map (fun f => match f_type f with
                      | TObject (c :: p) n => [(c :: p, n)]
